@@ -105,7 +105,7 @@ Qed.
 (* (finite, with optional rational bounds) or ATop (not proved).      *)
 
 Close Scope Qc_scope.
-From GettsimModel Require Import Itv Absint.
+From GettsimModel Require Import Itv Absint Column Table.
 
 (* keep only the interval view of an abstract value *)
 Definition norm (a : aval) : aval := of_oitv (itv_of a).
@@ -142,45 +142,88 @@ Definition round_cls (P : params) (g name : string) (a : aval) : aval :=
   | None => ATop
   end.
 
+Definition a_known (a : aval) : bool := match a with ATop => false | _ => true end.
+
+(* a joined column is cast to the dtype of the target column, whatever it is *)
+Definition join_cls (a : aval) : aval :=
+  match itv_of a with
+  | Some i => if nonneg i then AItv {| lo := Some 0%Qc; hi := omap (fun h => qmax h 1%Qc) (hi i) |} else AFin
+  | None => ATop
+  end.
+
+(* numpy's cast of the rule's value to the declared dtype *)
+Definition cast_cls (t : dtype) (a : aval) : aval :=
+  match t with
+  | TFloat => norm a
+  | TBool => ABool
+  | TInt => match itv_of a with
+            | Some i => if nonneg i then AItv {| lo := omap (fun l => qz (qfloor l)) (lo i); hi := hi i |} else AFin
+            | None => ATop end
+  | _ => ATop
+  end.
+
+Definition class_of (data : list string) (acc : list (string * aval)) (a : string) : aval :=
+  match alookup a acc with Some x => x | None => input_aval data a end.
+
 Definition node_aval (ft : ftable) (P : params) (data : list string) (acc : list (string * aval)) (n : dnode) : aval :=
-  let get := fun a => match alookup a acc with Some x => x | None => input_aval data a end in
+  let get := class_of data acc in
   if Sign.smem (d_name n) data then input_aval data (d_name n) else    (* a supplied column replaces the node *)
   match d_kind n with
   | KRule py _ rd =>
       match flookup py ft with
       | Some f =>
-          let l := map (fun a => if is_params_name (fst a)
-                                 then match pget (group_of (fst a)) P with Some v => APar v | None => ATop end
-                                 else get (fst a)) (f_args f) in
-          let r := norm (rule_aval ft f l) in
-          match rd with Some g => round_cls P g (d_name n) r | None => r end
+          match annot_otype (f_ret f) with
+          | Some t =>
+              let l := map (fun a => if is_params_name (fst a)
+                                     then match pget (group_of (fst a)) P with Some v => APar v | None => ATop end
+                                     else get (fst a)) (f_args f) in
+              let r := cast_cls t (rule_aval ft f l) in
+              match rd with Some g => round_cls P g (d_name n) r | None => r end
+          | None => ATop
+          end
       | None => ATop
       end
   | KGroupAgg aggr =>
       match d_args n with
-      | [src; _] => if String.eqb aggr "any" || String.eqb aggr "all" then ABool
-                    else if String.eqb aggr "mean" || String.eqb aggr "max" || String.eqb aggr "min" then norm (get src)
+      | [src; _] => if String.eqb aggr "any" || String.eqb aggr "all" then (if a_known (get src) then ABool else ATop)
+                    else if String.eqb aggr "max" || String.eqb aggr "min" then norm (get src)
                     else if String.eqb aggr "sum"
                     then match itv_of (get src) with
                          | Some i => if nonneg i then AItv {| lo := lo i; hi := None |} else AFin
                          | None => ATop end
+                    else if String.eqb aggr "mean"
+                    then match itv_of (get src) with Some i => if nonneg i then ANN else AFin | None => ATop end
                     else ATop
-      | [_] => if String.eqb aggr "count" then AItv {| lo := Some (qz 1); hi := None |} else ATop
+      | [ids] => if String.eqb aggr "count" && a_known (get ids) then AItv {| lo := Some (qz 1); hi := None |} else ATop
       | _ => ATop
       end
   | KPidAgg aggr =>
       if String.eqb aggr "sum"
       then match d_args n with
-           | src :: _ => match itv_of (get src) with Some i => if nonneg i then ANN else AFin | None => ATop end
-           | [] => ATop end
+           | [src; _; pid] => if a_known (get pid)
+                              then match itv_of (get src) with Some i => if nonneg i then ANN else AFin | None => ATop end
+                              else ATop
+           | _ => ATop end
       else ATop
   | KTimeConv num den =>
       match d_args n with
       | [a] => match itv_of (get a) with Some i => AItv (iscale (qfrac num den) i) | None => ATop end
       | _ => ATop
       end
-  | KGrouping => ANN
-  | KJoin _ _ tgt dflt cmp => match cmp with Some _ => ABool | None => norm (join (get tgt) (APar dflt)) end
+  | KGrouping =>
+      (* id columns are ints, hence finite; the class is claimed where the length of the result is known *)
+      if String.eqb (d_name n) "eg_id" || String.eqb (d_name n) "ehe_id" || String.eqb (d_name n) "fg_id" || String.eqb (d_name n) "sn_id" then AFin
+      else if String.eqb (d_name n) "bg_id" then (if a_known (get "fg_id") then AFin else ATop)
+      else if String.eqb (d_name n) "wthh_id"
+      then (if a_known (get "hh_id") && a_known (get "wohngeld_vorrang_bg") && a_known (get "wohngeld_kinderzuschl_vorrang_bg") then AFin else ATop)
+      else ATop
+  | KJoin fk _ tgt dflt cmp =>
+      if a_known (get fk)
+      then match cmp with
+           | Some (_, other) => if a_known (get other) then ABool else ATop
+           | None => join_cls (join (get tgt) (APar dflt))
+           end
+      else ATop
   end.
 
 Fixpoint a_nodes (ft : ftable) (P : params) (data : list string) (S : list dnode) (acc : list (string * aval)) : list (string * aval) :=
@@ -192,6 +235,66 @@ Fixpoint a_nodes (ft : ftable) (P : params) (data : list string) (S : list dnode
 Definition nodes_with (f : aval -> bool) (l : list (string * aval)) : list string :=
   map fst (filter (fun xa => f (snd xa)) l).
 
+(* the upper bound proved for node n is at most b *)
+Definition upper_le (K : list (string * aval)) (n : string) (b : Qc) : bool :=
+  match alookup n K with
+  | Some a => match itv_of a with Some i => match hi i with Some h => Qcleb h b | None => false end | None => false end
+  | None => false
+  end.
+
 Definition show_ob (o : option Qc) : string := match o with Some q => show_q q | None => "*" end.
 Definition show_aval (a : aval) : string :=
   match itv_of a with Some i => "[" ++ show_ob (lo i) ++ "," ++ show_ob (hi i) ++ "]" | None => "T" end.
+
+(* ---------------------------------------------------------------- *)
+(* value-level lemmas behind the closure rules of [node_aval]          *)
+
+(* numpy's cast to the declared dtype keeps the interval of a finite number (float), gives a
+   non-negative int for a non-negative number (int: truncation), a bool otherwise *)
+Lemma cast_float_keeps a v w : arel (norm a) v -> cast TFloat v = Ok w -> arel (norm a) w.
+Proof.
+  unfold norm. destruct (itv_of a) as [i|]; [|intros; exact I]. cbn [of_oitv].
+  intros (q & Eq & Hq) H. exists q. split; [|exact Hq].
+  destruct v as [z|[|u| |]|b| | | | |]; try discriminate; cbn in Eq; injection Eq as <-; cbn in H; injection H as <-; reflexivity.
+Qed.
+
+Lemma cast_bool_is_bool v w : cast TBool v = Ok w -> arel ABool w.
+Proof. cbn. destruct v; intro H; injection H as <-; apply abool_rel. Qed.
+
+Lemma cast_int_nonneg v w : arel ANN v -> cast TInt v = Ok w -> arel ANN w.
+Proof.
+  intros (q & Eq & Hq) H. destruct Hq as [Hq _]. cbn in Hq.
+  destruct v as [z|[|u| |]|b| | | | |]; try discriminate; cbn in Eq; injection Eq as <-; cbn in H; injection H as <-.
+  - exists (qz z). split; [reflexivity | split; [exact Hq | exact I]].
+  - exists (qz (qtrunc u)). split; [reflexivity|]. split; [cbn; apply qz_nonneg; apply (proj1 (qtrunc_nonneg u Hq)) | exact I].
+  - exists (qz (if b then 1 else 0)). split; [reflexivity | split; [exact Hq | exact I]].
+Qed.
+
+(* statutory rounding with base > 0 and a non-negative offset keeps a finite non-negative value so *)
+Lemma round_val_nonneg base dir off v w :
+  (0 < base)%Qc -> (0 <= off)%Qc -> arel ANN v -> Rounding.round_val base dir off v = Ok w -> arel ANN w.
+Proof.
+  intros Hb Ho (q & Eq & Hq) H. destruct Hq as [Hq _]. cbn in Hq. unfold Rounding.round_val in H.
+  assert (N : exists n, as_num v = Some n /\ num_x n = XFin q).
+  { destruct v as [z|[|u| |]|b| | | | |]; try discriminate; cbn in Eq; injection Eq as <-; eexists; split; reflexivity. }
+  destruct N as (n & En & Xn). rewrite En, Xn in H. cbn in H. injection H as <-.
+  exists (Rounding.round_to base dir off q). split; [reflexivity|]. split; [cbn; apply Rounding.round_nonneg; assumption | exact I].
+Qed.
+
+Lemma round_val_finite base dir off v w : a_fin (norm (APar v)) = true -> Rounding.round_val base dir off v = Ok w -> finv w.
+Proof.
+  unfold norm, a_fin. cbn [itv_of]. destruct (fq v) as [q|] eqn:Eq; [|discriminate]. intros _ H.
+  unfold Rounding.round_val in H.
+  assert (N : exists n, as_num v = Some n /\ num_x n = XFin q).
+  { destruct v as [z|[|u| |]|b| | | | |]; try discriminate; cbn in Eq; injection Eq as <-; eexists; split; reflexivity. }
+  destruct N as (n & En & Xn). rewrite En, Xn in H. cbn in H. injection H as <-. exact I.
+Qed.
+
+(* unit conversion multiplies by the fixed factor: the interval is scaled *)
+Lemma timeconv_scales num den i v w :
+  arel (AItv i) v -> arith Mul v (VFloat (XFin (qfrac num den))) = Ok w -> arel (AItv (iscale (qfrac num den) i)) w.
+Proof.
+  intros (q & Eq & Hq) H.
+  pose proof (arith_fq_mul v (VFloat (XFin (qfrac num den))) w q (qfrac num den) Eq eq_refl H) as E.
+  exists (q * qfrac num den)%Qc. split; [exact E|]. rewrite Qcmult_comm. apply iscale_ok. exact Hq.
+Qed.
